@@ -108,9 +108,6 @@ func decisionTable(r *ev.Run) {
 	dom := recDomain()
 	var sets [][]recSpec
 	maxN := 2
-	if r.Thorough() {
-		maxN = 3
-	}
 	enum.Sequences(len(dom), maxN, func(seq []int) {
 		if len(seq) == 0 {
 			return
@@ -130,7 +127,7 @@ func decisionTable(r *ev.Run) {
 		sets = append(sets, s)
 	})
 	// three-record sets need three priorities: add a third level
-	if r.Thorough() {
+	{
 		for _, a := range dom[:len(dom)/2] {
 			for _, b := range dom[len(dom)/2:] {
 				for _, c := range dom[:len(dom)/2] {
@@ -498,9 +495,9 @@ func runHistory(hc histCase, host string) (key, what string) {
 }
 
 func histories(r *ev.Run) {
-	depth := 2
+	depth := 3
 	if r.Thorough() {
-		depth = 3
+		depth = 4
 	}
 	var cases []histCase
 	for z := 0; z < 3; z++ {
@@ -558,7 +555,7 @@ func histories(r *ev.Run) {
 }
 
 func Run(r *ev.Run) {
-	r.Rule("part 1 (E1, exhaustive decision table): every set of 1..2 (thorough 3) service-mode HTTPS records with distinct priorities over ALPN {none,[h3],[h2],[h3,h2],[http/1.1],[foo]} x no-default-alpn x {HTTP3Transport nil, set}: which round-tripper runs and which records reach the dialer (observed by dialing through the context-carried resolver, each record identified by a distinct port) vs a reference; part 2 (E4): every request history of length <=2 (thorough 3; quick adds 14 three-request histories over colliding origins) over 8 origins {http,https} x {a.example,b.example (same address)} x {default port, 8443} x 3 zones {no HTTPS records, service records, alias to c.example with its own address}, with and without a Host override, through the real net/http client and Transport over in-memory TLS servers: plaintext never used, http upgraded iff HTTPS records exist, ServerName/SNI = the URL's host, Host header preserved, dial address/port, resp.Request identity, and no server connection shared between origins. distinct = distinct cases")
+	r.Rule("part 1 (E1, exhaustive decision table): every set of 1..3 service-mode HTTPS records with distinct priorities over ALPN {none,[h3],[h2],[h3,h2],[http/1.1],[foo]} x no-default-alpn x {HTTP3Transport nil, set}: which round-tripper runs and which records reach the dialer (observed by dialing through the context-carried resolver, each record identified by a distinct port) vs a reference; part 2 (E4): every request history of length <=3 (thorough 4) over 8 origins {http,https} x {a.example,b.example (same address)} x {default port, 8443} x 3 zones {no HTTPS records, service records, alias to c.example with its own address}, with and without a Host override, through the real net/http client and Transport over in-memory TLS servers: plaintext never used, http upgraded iff HTTPS records exist, ServerName/SNI = the URL's host, Host header preserved, dial address/port, resp.Request identity, and no server connection shared between origins. distinct = distinct cases")
 	r.Assume("net/http and crypto/tls run goroutines outside any scheduler: a failing history is re-executed and reported only if it fails 5/5", "record sets with equal priorities are excluded (their relative order is unspecified)", "HTTP/3 itself is represented by a fake round-tripper that dials through the context-carried resolver")
 	muxOnce.Do(func() { dns.VerifRoundTripper = mux })
 	t0 := time.Now()
